@@ -14,6 +14,7 @@ from buidl.ecc import N, PrivateKey, S256Point
 from buidl.script import Script, ScriptPubKey
 from buidl.taproot import MultiSigTapScript, MuSigTapScript, TapLeaf, TapRootMultiSig
 from buidl.tx import Tx, TxIn, TxOut
+from buidl.timelock import Locktime, Sequence
 from buidl.witness import Witness
 
 from ref import secp, sighash as rs, txmodel as tm
@@ -139,6 +140,8 @@ def run_sessions(plan, tr):
             build_objects()
         if si > 0:
             tr.fault("second_session_same_objects" if plan.get("reuse_objects", True) else "second_session_fresh_objects")
+            if sess.get("retry"):
+                tr.fault("retry_same_message_after_" + ("failure" if results and results[-1] != "returned" else "success"))
         msg = bytes.fromhex(sess["msg"])
         merkle = bytes.fromhex(sess.get("merkle", ""))
         faults = sess.get("faults", [])
@@ -406,6 +409,28 @@ def run_tree(plan, tr):
     out = {"mode": "tree", "n": n, "k": k, "subset": subset, "kinds": kinds, "results": []}
     for kind in kinds:
         tree = trm.musig_tree() if kind == "musig" else trm.multi_leaf_tree()
+        # the dealer goes on producing other trees from the SAME object (time-locked recovery variants, the other leaf kinds) before
+        # anybody uses the first one: the first tree must stay the tree it was
+        root0 = tree.hash()
+        raws0 = [lf.tap_script.raw_serialize() for lf in tree.leaves()]
+        for lt in plan.get("later", []):
+            tr.fault("later_tree_" + lt["fn"])
+            kw = {}
+            if lt.get("sequence"):
+                kw["sequence"] = Sequence.from_relative_blocks(lt["sequence"])
+            elif lt.get("locktime"):
+                kw["locktime"] = Locktime(lt["locktime"])
+            try:
+                other = getattr(trm, lt["fn"])(**kw)
+                other.hash() if hasattr(other, "hash") else None
+            except SimDeadlock:
+                raise
+            except Exception as e:
+                tr.probe("later_tree_raised")
+        if plan.get("later"):
+            tr.oracle("U5_stable")
+            if tree.hash() != root0 or [lf.tap_script.raw_serialize() for lf in tree.leaves()] != raws0:
+                fail("U5", f"tree_changed_by_later_tree_{kind}", f"the {kind} tree for {k}-of-{n} (merkle root {root0.hex()[:16]}..) changed after the same TapRootMultiSig object produced {[l['fn'] for l in plan['later']]}")
         leaves = tree.leaves()
         tr.oracle("U5_count")
         tr.ev("dealer", "tree", f"{kind}|{k}of{n}|{len(leaves)}")
@@ -519,6 +544,7 @@ def execute(plan, prop, trace):
 
 # ------------------------------------------------------------------------------------------------
 
+LATER_FNS = ["musig_tree", "musig_tree", "multi_leaf_tree", "single_leaf", "musig_and_single_leaf_tree", "everything_tree"]
 SESSION_FAULTS = ["drop_psig", "dup_psig", "corrupt_psig", "stale_psig", "corrupt_nonce", "crash", "add_zero_psig"]
 
 
@@ -527,12 +553,13 @@ def generate(ch, tier, prop):
         n = ch.choice([2, 2, 3, 3, 4, 5]) if tier == "thorough" else ch.choice([2, 2, 3, 3, 4])
         k = ch.randrange(1, n + 1)
         return {"mode": "tree", "n": n, "k": k, "keys": ch.sample(range(POOL), n), "subset": ch.sample(range(n), k), "order_seed": ch.randrange(1 << 30), "txid": ch.bytes(32).hex(), "vout": ch.randrange(4),
-                "amount": ch.choice([1000, 100000, 10**8]), "nonce": {"mode": "seeded", "seed": ch.randrange(1 << 30)}, "all_subsets": tier == "thorough" and ch.chance(0.5), "steps": []}
+                "amount": ch.choice([1000, 100000, 10**8]), "nonce": {"mode": "seeded", "seed": ch.randrange(1 << 30)}, "all_subsets": tier == "thorough" and ch.chance(0.5), "steps": [],
+                "later": [] if ch.chance(0.5) else [dict({"fn": ch.choice(LATER_FNS)}, **ch.choice([{}, {"sequence": ch.choice([1, 144, 65535])}, {"locktime": ch.choice([1, 500000, 1700000000])}])) for _ in range(ch.randrange(1, 3))]}
     n = ch.choice([2, 2, 2, 3, 3, 4]) if tier == "quick" else ch.choice([2, 2, 3, 3, 4, 5])
     fault_free = ch.chance(0.35)
     enabled = [] if fault_free else [f for f in SESSION_FAULTS if ch.chance(0.4)]
     sessions = []
-    for si in range(2 if ch.chance(0.4) else 1):
+    for si in range(ch.choice([1, 1, 1, 2, 2, 3])):
         faults = []
         if enabled and ch.chance(0.6):
             for _ in range(ch.choice([1, 1, 2])):
@@ -542,7 +569,13 @@ def generate(ch, tier, prop):
                 if f["f"] == "crash":
                     f["to"] = "all" if ch.chance(0.4) else ch.sample(range(n), ch.randrange(0, n))
                 faults.append(f)
-        sessions.append({"msg": ch.bytes(32).hex(), "merkle": ch.bytes(32).hex() if ch.chance(0.5) else "", "faults": faults, "agg": ch.randrange(n), "order_seed": ch.randrange(1 << 30)})
+        sess = {"msg": ch.bytes(32).hex(), "merkle": ch.bytes(32).hex() if ch.chance(0.5) else "", "faults": faults, "agg": ch.randrange(n), "order_seed": ch.randrange(1 << 30)}
+        if si > 0 and ch.chance(0.6):
+            # a retry of the previous session's message (same tweak) with fresh nonces, after whatever happened there
+            sess["msg"], sess["merkle"], sess["retry"] = sessions[-1]["msg"], sessions[-1]["merkle"], True
+            if ch.chance(0.6):
+                sess["faults"] = []
+        sessions.append(sess)
     return {"mode": "session", "n": n, "keys": ch.sample(range(POOL), n), "order_seed": ch.randrange(1 << 30), "nonce": {"mode": ch.weighted([("seeded", 6), ("mixed", 2), ("one", 1), ("max", 1), ("small", 1)]), "seed": ch.randrange(1 << 30)},
             "reuse_objects": ch.chance(0.8), "sessions": sessions, "steps": []}
 
@@ -565,8 +598,26 @@ def enumerate_plans(tier, prop, seed):
                "sessions": [{"msg": "%064x" % (a * 7 + b), "merkle": "", "faults": [], "agg": 0, "order_seed": 1}, {"msg": "%064x" % (a * 7 + b + 1), "merkle": "%064x" % (b + 5), "faults": [], "agg": 1, "order_seed": 2}], "enum": "pairs"}
 
 
+    # a failed session followed by a fault-free retry of the same message on the same objects: every fault kind, plain and tweaked
+    for fk in SESSION_FAULTS + ["none"]:
+        for merkle in ("", "%064x" % 77):
+            for n in (2, 3):
+                f = [] if fk == "none" else [dict({"f": fk, "i": 1, "bit": 9, "gap": 0}, **({"to": [0]} if fk in ("corrupt_nonce", "crash") else {}))]
+                yield {"mode": "session", "n": n, "keys": r.sample(range(POOL), n), "order_seed": r.randrange(1 << 30), "nonce": {"mode": "seeded", "seed": r.randrange(1 << 30)}, "reuse_objects": True, "steps": [],
+                       "sessions": [{"msg": "%064x" % 5, "merkle": merkle, "faults": f, "agg": 0, "order_seed": 1}, {"msg": "%064x" % 5, "merkle": merkle, "faults": [], "agg": 0, "order_seed": 2, "retry": True},
+                                    {"msg": "%064x" % 5, "merkle": merkle, "faults": [], "agg": 1, "order_seed": 3, "retry": True}], "enum": "retry"}
+    # later trees from the same dealer object: every function x timelock argument, both leaf kinds
+    for fn in sorted(set(LATER_FNS)):
+        for arg in ({}, {"sequence": 144}, {"locktime": 500000}):
+            yield {"mode": "tree", "n": 3, "k": 2, "keys": r.sample(range(POOL), 3), "subset": r.sample(range(3), 2), "order_seed": r.randrange(1 << 30), "txid": "22" * 32, "vout": 1, "amount": 100000,
+                   "nonce": {"mode": "seeded", "seed": r.randrange(1 << 30)}, "all_subsets": True, "steps": [], "later": [dict({"fn": fn}, **arg)], "enum": "later"}
+
+
 def shrink(plan):
     if plan["mode"] != "session":
+        if plan.get("later"):
+            for j in range(len(plan["later"])):
+                yield dict(plan, later=plan["later"][:j] + plan["later"][j + 1 :])
         if plan.get("all_subsets"):
             yield dict(plan, all_subsets=False)
         return
